@@ -164,6 +164,26 @@ def authPublickey (P : Prims) (pubkeys : List Name) (callbackOk : Key → Bool)
         else if ¬ verifySshSig P key blob sg then .failure
         else .success
 
+/-- one USERAUTH_REQUEST (method publickey) as the branch sees it; `P` carries the library's verdict
+    on this request's signature -/
+structure Req where
+  P : Prims
+  algorithm : Name
+  keyblob : Bytes
+  sig : Option Bytes
+  blob : Bytes
+
+/-- a connection ends with the first disconnect; after a success further requests are ignored -/
+def truncateSession : List AuthOut → List AuthOut
+  | [] => []
+  | o :: r => if o = .disconnect ∨ o = .success then [o] else o :: truncateSession r
+
+/-- a whole sequence of publickey requests on ONE connection (unsigned queries and signed
+    requests in any order): each one is judged on its own — nothing learnt from an earlier request
+    (e.g. a key that was answered with PK_OK) is carried over -/
+def authSession (pubkeys : List Name) (callbackOk : Key → Bool) (reqs : List Req) : List AuthOut :=
+  truncateSession (reqs.map fun r => authPublickey r.P pubkeys callbackOk r.algorithm r.keyblob r.sig r.blob)
+
 /-! ## paramiko's tables (compared with the source by the harness on every run) -/
 
 def nm (s : String) : Name := s.toUTF8.toList
